@@ -315,7 +315,7 @@ func main() {
 	r := ev.Start("C13")
 	defer r.RecoverMain()
 	defer world.Cleanup()
-	r.SetBudget(ev.Pick(r, 120*time.Second, 30*time.Minute))
+	r.SetBudget(ev.Pick(r, 300*time.Second, 30*time.Minute))
 	r.Assume("the cutoff seam maps the retention the code used onto a fixed clock, so markers sit exactly at cutoff-1ns / cutoff / cutoff+10min",
 		"slices are cut after n records through the limit seam (n=1,2,3: every position is a slice boundary for some n); the duration-based limit is exercised by one large scenario",
 		"a marker older than the cutoff that the application writes during the pass may or may not be swept (both accepted)")
